@@ -120,10 +120,12 @@ class Variable:
         Returns:
             tuple: the bounds of the variable
         """
-        min_val = (self.variable.scale(self.min_val)
-                   if self.min_val is not None else None)
-        max_val = (self.variable.scale(self.max_val)
-                   if self.max_val is not None else None)
+        min_val, max_val = self.min_val, self.max_val
+        if self.apply_scaling:
+            if min_val is not None:
+                min_val = self.variable.scale(min_val)
+            if max_val is not None:
+                max_val = self.variable.scale(max_val)
         return min_val, max_val
 
     def update(self, new_value):
